@@ -166,7 +166,8 @@ class JsonDocument(HierDictDocument):
         if val is not None and issubclass(cls, (DateTime, Date, Time)) and not (
                                     isinstance(val, six.string_types) and
                                                  cls.validate_string(cls, val)):
-            raise ValidationError(key, val)
+            # the second argument of ValidationError is the message template
+            raise ValidationError([key, val])
 
     @property
     def message(self):
